@@ -86,6 +86,8 @@ func (sh *c19Shared) sharedWires() [][]byte {
 				refSubLists(genSubs(r, 1+r.Intn(3))),                               // 3: UE policy section management list
 				refconv.SuciWire(mcc, mnc, digits(r, 2), 0, 1, digits(r, 10), nil), // 4: SUCI
 				refconv.GutiWire(mcc, mnc, r.Uint32()&0xffffff, r.Uint32()),        // 5: 5G-GUTI
+				refconv.PeiWire(digits(r, 15), false),                              // 6: IMEI
+				refconv.PeiWire(digits(r, 16), true),                               // 7: IMEISV
 			)
 		}
 	})
@@ -96,7 +98,7 @@ func h64(b []byte) uint64 { return core.HashBytes(0, b) }
 
 func hs(s string) uint64 { return core.HashStr(0, s) }
 
-var c19Kinds = []string{"decode", "encode", "cipher1", "cipher2", "cipher3", "mac1", "mac2", "mac3", "accessor", "ident", "lists", "misc", "qos", "pco", "uepolicy", "count-alloc", "shared-encode", "shared-getters", "handoff", "zones", "mac0", "getters", "shared-parse", "rx-handoff"}
+var c19Kinds = []string{"decode", "encode", "cipher1", "cipher2", "cipher3", "mac1", "mac2", "mac3", "accessor", "ident", "lists", "misc", "qos", "pco", "uepolicy", "count-alloc", "shared-encode", "shared-getters", "handoff", "zones", "mac0", "getters", "shared-parse", "rx-handoff", "uepolicy-result", "bad-input"}
 
 // scr overwrites a slice the library RETURNED to this goroutine (after its digest was
 // taken): the memory is the caller's. If the library handed the same memory to another
@@ -172,7 +174,12 @@ func c19Run(sh *c19Shared, it c19Item) (res uint64) {
 		ws := sh.sharedWires()
 		j := r.Intn(len(ws))
 		w := ws[j]
-		switch j % 6 {
+		switch j % 8 {
+		case 6, 7:
+			s1, err := nasConvert.PeiToStringWithError(w)
+			e := nasType.NewMobileIdentity5GS(0)
+			e.Len, e.Buffer = uint16(len(w)), w // an element that holds the received octets themselves
+			return hs(s1) ^ hs(fmt.Sprint(err)) ^ hs(e.GetIMEI())<<1 ^ hs(e.GetIMEISV())<<2 ^ h64(w)
 		case 0:
 			var v nasType.QoSRules
 			err := v.UnmarshalBinary(w)
@@ -356,6 +363,57 @@ func c19Run(sh *c19Shared, it c19Item) (res uint64) {
 			rx := nasConvert.NewProtocolConfigurationOptions()
 			return c19Handoff(rx, rx.UnMarshal, pcoContents(r, r.Intn(8)), pcoContents(r, r.Intn(8)))
 		}
+	case "uepolicy-result":
+		// the reject path of the UE policy delivery service: sub results with their results
+		var model []uSubRes
+		for i := 1 + r.Intn(3); i > 0; i-- {
+			sr := uSubRes{mcc: r.Range(99, 999), mnc: r.Range(9, 999)}
+			for j := 1 + r.Intn(3); j > 0; j-- {
+				sr.results = append(sr.results, uResult{uint16(r.Uint32()), uint16(r.Uint32())})
+			}
+			model = append(model, sr)
+		}
+		content := refSubResults(model)
+		var back uePolicyContainer.UEPolicySectionManagementResultContent
+		err := back.UnmarshalBinary(content)
+		out, err2 := back.MarshalBinary()
+		d := fingerprint(reflect.ValueOf(&back)) ^ h64(out) ^ hs(fmt.Sprint(err, err2)) ^ h64(content)
+		scr(out)
+		return d
+	case "bad-input":
+		// the error paths: malformed arguments, each goroutine its own
+		mcc, mnc := digits(r, 3), digits(r, 2+r.Intn(2))
+		bad := []byte(mcc + mnc)
+		bad[r.Intn(len(bad))] = "abcdefxyz-+ "[r.Intn(12)]
+		p := nasConvert.PlmnIDToNas(models.PlmnId{Mcc: string(bad[:3]), Mnc: string(bad[3:])})
+		tl, _ := c13RandTais(r, 1, 1)
+		tl[0].PlmnId = &models.PlmnId{Mcc: string(bad[:3]), Mnc: string(bad[3:])}
+		tb := nasConvert.TaiListToNas(tl)
+		_, err1 := nasConvert.GutiToNasWithError(string(bad) + "zz" + digits(r, 6))
+		_, _, err2 := nasConvert.SuciToStringWithError(r.Bytes(r.Intn(6)))
+		_, err3 := nasConvert.PeiToStringWithError(r.Bytes(r.Intn(3)))
+		_, _, _, err4 := nasConvert.AmfIdToNasWithError(string(bad))
+		_, _, err5 := nasConvert.GutiToStringWithError(r.Bytes(r.Intn(11)))
+		var qr nasType.QoSRules
+		err6 := qr.UnmarshalBinary(r.Bytes(r.Range(1, 12)))
+		var qd nasType.QoSFlowDescs
+		err7 := qd.UnmarshalBinary(r.Bytes(r.Range(1, 12)))
+		var ul uePolicyContainer.UEPolicySectionManagementListContent
+		err8 := ul.UnmarshalBinary(r.Bytes(r.Range(1, 12)))
+		var ur uePolicyContainer.UEPolicySectionManagementResultContent
+		err9 := ur.UnmarshalBinary(r.Bytes(r.Range(1, 12)))
+		pc := nasConvert.NewProtocolConfigurationOptions()
+		err10 := pc.UnMarshal(r.Bytes(r.Range(1, 12)))
+		err11 := security.NASEncrypt(uint8(1+r.Intn(3)), sh.keys[0], 1, uint8(32+r.Intn(200)), 0, r.Bytes(8))
+		_, err12 := security.NASMacCalculate(uint8(4+r.Intn(200)), sh.keys[0], 1, 1, 0, r.Bytes(8))
+		def := sh.gmm[r.Intn(len(sh.gmm))]
+		b := refcodec.RandomPlan(def, r, r.Intn(9), r.Intn(6)).Bytes()
+		if len(b) > 3 {
+			b = b[:3+r.Intn(len(b)-3)] // truncated
+		}
+		m := nas.NewMessage()
+		err13 := m.PlainNasDecode(&b)
+		return h64(p) ^ h64(tb)<<1 ^ hs(fmt.Sprint(err1, err2, err3, err4 != nil, err5, err6 != nil, err7 != nil, err8 != nil, err9 != nil, err10 != nil, err11 != nil, err12 != nil, err13 != nil))
 	case "rx-handoff":
 		// the receive loop of a server: every packet is read into ONE receive buffer,
 		// decoded, and the decoded message handed to a worker, while the loop reads the
@@ -832,7 +890,7 @@ func init() {
 		// cold starts under the race detector: the first use of each group of operations in a
 		// process is made by 32 goroutines at once (lazily built tables and caches are then built
 		// under contention, and the detector sees the unsynchronised publication)
-		for gi, g := range [][]string{{"mac1", "cipher1"}, {"mac2", "cipher2"}, {"mac3", "cipher3", "mac0"}, {"getters", "ident", "shared-parse"}, {"lists", "misc", "zones"}, {"qos", "pco", "uepolicy", "handoff", "rx-handoff"}, {"decode", "encode", "accessor"}} {
+		for gi, g := range [][]string{{"mac1", "cipher1"}, {"mac2", "cipher2"}, {"mac3", "cipher3", "mac0"}, {"getters", "ident", "shared-parse"}, {"lists", "misc", "zones", "bad-input"}, {"qos", "pco", "uepolicy", "handoff", "rx-handoff", "uepolicy-result"}, {"decode", "encode", "accessor"}} {
 			us = append(us, coldUnitN("nas", gi+1, 32, g...))
 		}
 		// long storms of the keyed algorithms: 32 goroutines x 200 (thorough 2000) light items of one
